@@ -213,22 +213,23 @@ func renderGo(reg *template.Registry, p *Program, msgs soymsg.Bundle) (out, errs
 }
 
 type stats struct {
-	mu           sync.Mutex
-	programs     int64
-	checks       int64
-	rejected     map[string]int
-	frontend     map[string]int
-	frontendEx   []map[string]string
-	batchOnly    int
-	byPos        map[string]int
-	byWrap       map[string]int
-	lits         []litObs
-	litCap       int
-	nodeRequests int64
-	genErrs      int
-	failures     []*Failure
-	scriptClose  int
-	m3only       int
+	mu             sync.Mutex
+	programs       int64
+	checks         int64
+	rejected       map[string]int
+	frontend       map[string]int
+	frontendEx     []map[string]string
+	batchOnly      int
+	byPos          map[string]int
+	byWrap         map[string]int
+	lits           []litObs
+	litCap         int
+	nodeRequests   int64
+	genErrs        int
+	failures       []*Failure
+	scriptClose    int
+	m3only         int
+	importsMissing map[string]int
 }
 
 type litObs struct {
@@ -302,6 +303,10 @@ func Run(ctx *core.Ctx) {
 	ctx.Extra["node_requests"] = st.nodeRequests
 	ctx.Extra["node_restarts"] = pool.Restarts()
 	ctx.Extra["generator_errors"] = st.genErrs
+	if st.importsMissing == nil {
+		st.importsMissing = map[string]int{}
+	}
+	ctx.Extra["es6_import_lines_missing"] = st.importsMissing // programs per name: observation only
 }
 
 func m1(ctx *core.Ctx) {
@@ -473,6 +478,52 @@ func generate(ctx *core.Ctx) []*Program {
 			}
 		}
 	}
+	// mutation gaps: every registered JS function and print directive, in every syntactic role
+	libWraps := map[string]bool{"top": true, "if": true, "let-content": true}
+	for name := range soyjs.Funcs {
+		if _, ok := FuncSamples[name]; !ok {
+			ctx.ToolError("soyjs.Funcs has %q but harness/c14 FuncSamples has no sample call for it: add one", name)
+		}
+	}
+	for name := range soyjs.PrintDirectives {
+		if _, ok := DirectiveSamples[name]; !ok && name != "verifArg" {
+			ctx.ToolError("soyjs.PrintDirectives has %q but harness/c14 DirectiveSamples has no sample for it: add one", name)
+		}
+	}
+	var fnames, dnames []string
+	for n := range FuncSamples {
+		fnames = append(fnames, n)
+	}
+	for n := range DirectiveSamples {
+		dnames = append(dnames, n)
+	}
+	sort.Strings(fnames)
+	sort.Strings(dnames)
+	for _, w := range wrappers {
+		if !libWraps[w.name] && !(ctx.Thorough() && !w.msg) {
+			continue
+		}
+		for _, n := range fnames {
+			for _, use := range libraryUses {
+				if p, ok := BuildFunc(id, n, use, w); ok {
+					progs = append(progs, p)
+					id++
+				}
+			}
+		}
+		for _, n := range dnames {
+			for _, use := range directiveUses {
+				if p, ok := BuildDirective(id, n, use, w); ok {
+					progs = append(progs, p)
+					id++
+				}
+			}
+		}
+	}
+	for k := 0; k < 10; k++ {
+		progs = append(progs, BuildAutoescaped(id))
+		id++
+	}
 	// round 5: near-invalid bundle shapes
 	for _, kind := range ShapeKinds {
 		if p, ok := BuildShape(id, kind); ok {
@@ -548,7 +599,7 @@ func runBatch(ctx *core.Ctx, pool *jsrun.Pool, batch []*Program, st *stats) {
 			st.mu.Unlock()
 			continue
 		}
-		if c.goErr != "" || c.goOut != p.Expect {
+		if !p.JSOnly && (c.goErr != "" || c.goOut != p.Expect) {
 			st.frontend[p.Pos]++
 			if len(st.frontendEx) < 12 {
 				st.frontendEx = append(st.frontendEx, map[string]string{"pos": p.Pos, "wrap": p.Wrap, "s": fmt.Sprintf("%q", trunc(p.S, 60)),
@@ -824,6 +875,19 @@ func judge(pool *jsrun.Pool, cs []*compiled, f string, st *stats) ([]*Failure, e
 		if !loaded {
 			continue
 		}
+		if f == "es6" {
+			checks++
+			if missing := missingImports(p, c.js[f]); missing != "" {
+				// an OBSERVATION, never a verdict: no listed property states the ES6 formatter's import
+				// scheme (the body reaches soy.$$x through the global whatever is imported)
+				st.mu.Lock()
+				if st.importsMissing == nil {
+					st.importsMissing = map[string]int{}
+				}
+				st.importsMissing[missing]++
+				st.mu.Unlock()
+			}
+		}
 		checks++
 		var got []string
 		var want []string
@@ -850,6 +914,12 @@ func judge(pool *jsrun.Pool, cs []*compiled, f string, st *stats) ([]*Failure, e
 		}
 		checks++
 		call := resp.Calls[i]
+		if p.AnyOutput {
+			if !call.OK && strings.Contains(call.Err, "ReferenceError") {
+				fail("call-throws", call.Err, "")
+			}
+			continue
+		}
 		if !call.OK {
 			fail("call-throws", call.Err, "")
 			continue
@@ -862,6 +932,62 @@ func judge(pool *jsrun.Pool, cs []*compiled, f string, st *stats) ([]*Failure, e
 	st.checks += checks
 	st.mu.Unlock()
 	return fails, nil
+}
+
+var (
+	reImport  = regexp.MustCompile(`(?m)^import \{ (\S+) \} from '(.*)\.js';$`)
+	reExport  = regexp.MustCompile(`(?m)^export function ([A-Za-z0-9_$]+)\(`)
+	reTmplUse = regexp.MustCompile(`\b([A-Za-z_][A-Za-z0-9_$]*__[A-Za-z0-9_$]+)\(`)
+)
+
+// missingImports scans the ES6 modules of a program conservatively: every library function of a
+// print directive that the body calls (soy.$$x, JSON.stringify), every Soy function the source
+// uses and every template of another module that the body calls must have an import line
+// (specifier "<name>.js"). It returns the first missing name, or "".
+func missingImports(p *Program, modules []string) string {
+	src := p.File.Text
+	for _, x := range p.Extra {
+		src += x.Text
+	}
+	for _, code := range modules {
+		spec, bound, own := map[string]bool{}, map[string]bool{}, map[string]bool{}
+		for _, m := range reImport.FindAllStringSubmatch(code, -1) {
+			bound[m[1]], spec[m[2]] = true, true
+		}
+		for _, m := range reExport.FindAllStringSubmatch(code, -1) {
+			own[m[1]] = true
+		}
+		body := reImport.ReplaceAllString(code, "")
+		var names []string
+		for k := range soyjs.PrintDirectives {
+			names = append(names, k)
+		}
+		sort.Strings(names)
+		for _, k := range names {
+			d := soyjs.PrintDirectives[k]
+			if d.Name != "" && k != "verifArg" && strings.Contains(body, d.Name+"(") && !spec[d.Name] {
+				return d.Name
+			}
+		}
+		for _, m := range reTmplUse.FindAllStringSubmatch(body, -1) {
+			if !own[m[1]] && !bound[m[1]] && !strings.HasPrefix(m[1], "soy__") && !strings.HasPrefix(m[1], "JSON__") {
+				return m[1]
+			}
+		}
+	}
+	// Soy functions are imported under their Soy name by the module that uses them
+	all := strings.Join(modules, "\n")
+	var fns []string
+	for k := range soyjs.Funcs {
+		fns = append(fns, k)
+	}
+	sort.Strings(fns)
+	for _, k := range fns {
+		if regexp.MustCompile(`[^A-Za-z0-9_.$]`+k+`\(`).MatchString(src) && !strings.Contains(all, "from '"+k+".js';") {
+			return k + "()"
+		}
+	}
+	return ""
 }
 
 func sameUnits(a, b []uint16) bool {
